@@ -87,3 +87,198 @@ class install_tape:
     def __exit__(self, *a):
         F.Tape, P.Tape, env.T.Tape, _CUR[0] = self.old
         return False
+
+
+# ===================================================================== VM
+class MonDeque(deque):
+    """Stack storage that checks the limits on every mutation."""
+
+    def __init__(self, stack, **kw):
+        super().__init__(**kw)
+        self._s = stack
+        self.hw = 0
+        self.hw_item = 0
+
+    def _item(self, x):
+        m = _CUR[0]
+        if m is None:
+            return
+        m.guard()
+        if not isinstance(x, bytes):
+            m.violate('non-bytes-item-on-stack', type(x).__name__)
+        if len(x) > self._s.max_item_size:
+            m.violate('item-over-max_item_size', '%d > %d' % (len(x), self._s.max_item_size))
+        if len(x) > self.hw_item:
+            self.hw_item = len(x)
+
+    def append(self, x):
+        m = _CUR[0]
+        if m is not None:
+            if self.maxlen is not None and len(self) >= self.maxlen:
+                m.violate('append-to-full-deque-silent-drop', len(self))
+            self._item(x)
+        super().append(x)
+        if len(self) > self.hw:
+            self.hw = len(self)
+        if m is not None and len(self) > self._s.max_items:
+            m.violate('stack-over-max_items', len(self))
+
+    def __setitem__(self, i, x):
+        self._item(x)
+        super().__setitem__(i, x)
+
+    def appendleft(self, x):
+        m = _CUR[0]
+        if m is not None and self.maxlen is not None and len(self) >= self.maxlen:
+            m.violate('appendleft-to-full-deque-silent-drop', len(self))
+        self._item(x)
+        super().appendleft(x)
+
+    def extend(self, it):
+        for x in it:
+            self.append(x)
+
+    def insert(self, i, x):
+        self._item(x)
+        super().insert(i, x)
+        m = _CUR[0]
+        if m is not None and len(self) > self._s.max_items:
+            m.violate('stack-over-max_items', len(self))
+
+
+class MonStack(Cl.Stack):
+    def __init__(self, max_items=1024, max_item_size=1024):
+        super().__init__(max_items=max_items, max_item_size=max_item_size)
+        self.deque = MonDeque(self, maxlen=self.max_items)
+
+
+class VMTape(MonTape):
+    """Tape for VM runs: reads of one run_tape activation are at
+    non-decreasing offsets; loop resets are bounded by the limit."""
+
+    def __setattr__(self, k, v):
+        if k == 'pointer':
+            m = _CUR[0]
+            if m is not None and 'data' in self.__dict__:
+                m.guard()
+                if not isinstance(v, int) or v < 0 or v > len(self.__dict__['data']):
+                    object.__setattr__(self, k, v)
+                    m.violate('pointer-out-of-bounds', '%r (len %d)' % (v, len(self.__dict__['data'])))
+        object.__setattr__(self, k, v)
+
+    def read(self, size, move_pointer=True):
+        m = _CUR[0]
+        if m is not None:
+            m.guard()
+            if not isinstance(size, int) or size < 0:
+                m.violate('negative-read', repr(size))
+            fr = None
+            for f in reversed(m.frames):
+                if f[0] is self:
+                    fr = f
+                    break
+            if fr is not None:
+                if self.pointer < fr[1]:
+                    m.violate('backward-read-within-activation', '%d after %d' % (self.pointer, fr[1]))
+                fr[1] = self.pointer
+            if self.pointer + size > len(self.data):
+                m.event('limit:read-past-end')
+        return Cl.Tape.read(self, size, move_pointer)
+
+    def reset_pointer(self):
+        m = _CUR[0]
+        if m is not None:
+            m.guard()
+            n = self.__dict__.get('_resets', 0) + 1
+            self.__dict__['_resets'] = n
+            if n > self.callstack_limit:
+                m.violate('loop-iterations-exceed-limit', '%d > %d' % (n, self.callstack_limit))
+            for f in reversed(m.frames):
+                if f[0] is self:
+                    f[1] = 0
+                    break
+        Cl.Tape.reset_pointer(self)
+
+
+class VMMonitor(Monitor):
+    def __init__(self):
+        super().__init__()
+        self.frames = []
+        self.chain = 0
+        self.max_chain = 0
+        self.pending_call = False
+        self.activations = 0
+        self.max_nesting = 0
+
+
+class install_vm:
+    """Bind the VM monitors: Tape, Stack, run_tape, OP_CALL / OP_EVAL."""
+
+    def __init__(self, monitor):
+        self.m = monitor
+
+    def __enter__(self):
+        m = self.m
+        self.saved = dict(Tape=F.Tape, PTape=P.Tape, TTape=env.T.Tape, Stack=F.Stack, run_tape=F.run_tape,
+                          cur=_CUR[0], ops={}, fns={})
+        F.Tape = P.Tape = env.T.Tape = VMTape
+        F.Stack = MonStack
+        orig_run_tape = F.run_tape
+
+        def mon_run_tape(tape, stack, cache, additional_flags={}):
+            m.guard()
+            is_call = m.pending_call
+            m.pending_call = False
+            m.frames.append([tape, tape.pointer])
+            m.activations += 1
+            if len(m.frames) > m.max_nesting:
+                m.max_nesting = len(m.frames)
+            if is_call:
+                m.chain += 1
+                if m.chain > m.max_chain:
+                    m.max_chain = m.chain
+                if m.chain > tape.callstack_limit:
+                    m.frames.pop()
+                    m.chain -= 1
+                    m.violate('call-chain-deeper-than-limit', '%d > %d' % (m.chain + 1, tape.callstack_limit))
+            if tape.callstack_count > tape.callstack_limit:
+                m.frames.pop()
+                if is_call:
+                    m.chain -= 1
+                m.violate('callstack_count-over-limit', '%d > %d' % (tape.callstack_count, tape.callstack_limit))
+            try:
+                return orig_run_tape(tape, stack, cache, additional_flags)
+            finally:
+                m.frames.pop()
+                if is_call:
+                    m.chain -= 1
+        F.run_tape = mon_run_tape
+        for name in ('OP_CALL', 'OP_EVAL'):
+            fn = getattr(F, name)
+            self.saved['fns'][name] = fn
+
+            def w(tape, stack, cache, _fn=fn):
+                m.pending_call = True
+                try:
+                    return _fn(tape, stack, cache)
+                finally:
+                    m.pending_call = False
+            w.__name__ = name
+            setattr(F, name, w)
+            code = F.opcodes_inverse[name][0]
+            self.saved['ops'][code] = (F.opcodes[code], F.opcodes_inverse[name])
+            F.opcodes[code] = (name, w)
+            F.opcodes_inverse[name] = (code, w)
+        _CUR[0] = m
+        return m
+
+    def __exit__(self, *a):
+        s = self.saved
+        F.Tape, P.Tape, env.T.Tape, F.Stack, F.run_tape = s['Tape'], s['PTape'], s['TTape'], s['Stack'], s['run_tape']
+        for name, fn in s['fns'].items():
+            setattr(F, name, fn)
+        for code, (oc, inv) in s['ops'].items():
+            F.opcodes[code] = oc
+            F.opcodes_inverse[oc[0]] = inv
+        _CUR[0] = s['cur']
+        return False
